@@ -1,12 +1,12 @@
 // Command c02: determinism harness for property C02.
-//  - repetition oracle: every corpus input is linted R times on fresh Linter
-//    values under varying GOMAXPROCS; all R results ([]*Error and the printed
-//    bytes) must be identical;
-//  - correspondence cases for the map-iteration sites that the Coq model
-//    covers (format() placeholders, missing required inputs of an action,
-//    missing inputs/secrets of a reusable-workflow call): the model receives
-//    the map entries in a shuffled order and must predict the order in which
-//    the implementation reports the same-position diagnostics.
+//   - repetition oracle: every corpus input is linted R times on fresh Linter
+//     values under varying GOMAXPROCS; all R results ([]*Error and the printed
+//     bytes) must be identical;
+//   - correspondence cases for the map-iteration sites that the Coq model
+//     covers (format() placeholders, missing required inputs of an action,
+//     missing inputs/secrets of a reusable-workflow call): the model receives
+//     the map entries in a shuffled order and must predict the order in which
+//     the implementation reports the same-position diagnostics.
 package main
 
 import (
@@ -599,6 +599,25 @@ func main() {
 		}
 		emit(c.inputs, c.inReq, supIn, obsIn)
 		emit(c.secrets, c.secReq, supSec, obsSec)
+	}
+	// (7') several jobs with dangling references (each is reported, whatever the visiting order);
+	// JSON literals whose keys differ in letter case only (one property: its type is decided by
+	// the text)
+	for k := 0; k < 6; k++ {
+		var b strings.Builder
+		b.WriteString("on: push\njobs:\n")
+		n := 3 + k
+		for _, i := range r.Perm(n) {
+			fmt.Fprintf(&b, "  d%d:\n    needs: [ghost%d, other%d]\n    runs-on: ubuntu-latest\n    steps:\n      - run: echo\n", i, i, i)
+		}
+		src := b.String()
+		sum.Dist["site_needs_dangling"]++
+		check("site:needs-dangling:"+src, "generated workflow with dangling needs in every job", src, func(rep int) result { return lintContent("gen.yaml", []byte(src), rep) })
+	}
+	for _, js := range []string{`{"ab":1,"Ab":true,"aB":"s"}`, `{"k":"s","K":1,"kK":true,"Kk":[1]}`, `{"x":{"id":1},"X":{"id":true},"xX":{"ID":"s"}}`, `[{"a":1},{"A":true},{"a":"s"}]`} {
+		src := "on: push\njobs:\n  a:\n    runs-on: ubuntu-latest\n    steps:\n      - run: echo ${{ fromJSON('" + js + "').ab.foo }} ${{ fromJSON('[\"p\",\"q\"]')[fromJSON('" + js + "').k] }}\n      - run: echo ${{ fromJSON('" + js + "').x.id.foo }} ${{ fromJSON('" + js + "')[0].a.foo }}\n"
+		sum.Dist["site_json_case_keys"]++
+		check("site:json-case-keys:"+js, "JSON literal with keys differing in letter case only", src, func(rep int) result { return lintContent("gen.yaml", []byte(src), rep) })
 	}
 	// (7) sites without a model: needs cycles, runner label conflicts (repetition only)
 	for k := 0; k < *nsite; k++ {
